@@ -30,7 +30,8 @@ ASSUMPTIONS = ["ref.scope: C99 6.2.1 ordinary-identifier scoping (file / functio
 SHARD_TIMEOUT = {"quick": 900, "thorough": 3600}
 NAMES = ["T", "U"]
 BLOCK_EVENTS = ["typedef", "obj", "objinit", "obj2", "enum", "enumval", "tag", "etag", "member", "label", "proto", "for",
-                "open", "close", "struct_enum", "selfinit", "sizeof_enum_init"]
+                "open", "close", "struct_enum", "selfinit", "sizeof_enum_init", "etagref", "forif", "ifnoelse"]
+NEUTRAL_EVENTS = {"open", "close", "etagref", "forif", "ifnoelse"}   # events that involve none of the tracked names
 KF_EVENTS = {"enum": "K08", "enumval": "K08", "struct_enum": "K08", "sizeof_enum_init": "K08", "label": "K08",
              "for": "K11", "selfinit": "K12", "objinit": "K12", "kr": "K13", "nested": "K13"}
 
@@ -186,6 +187,19 @@ def apply_event(P, sc, ev, n, depth_left, rename=None):
         sc.pop()
         sc.pop()
         P.lines.append("}")
+    elif ev == "etagref":
+        # a tag-only reference: no enumerator list follows the 'enum' keyword
+        P.lines.append(f"enum EREF {P.fresh('er')};")
+    elif ev == "forif":
+        # a for loop with a declaration whose unbraced body ends in an if without else: the parser has to look one
+        # token past the loop (for 'else') - that token is whatever comes next ('}' or '{' included)
+        if len(sc.stack) < 2:
+            return False
+        P.lines.append(f"for (int {P.fresh('fi')} = 0; v < 1; v++) if (v) v = 1;")
+    elif ev == "ifnoelse":
+        if len(sc.stack) < 2:
+            return False
+        P.lines.append("if (v) if (v) v = 2;")
     elif ev == "open":
         if depth_left <= 0 or len(sc.stack) < 2:
             return False
@@ -208,6 +222,7 @@ def build_program(u_kind, events, param=None, kr=False, nested=False, renames=No
     renames = renames or {}
     P = Prog()
     sc = Scope()
+    P.lines.append("enum EREF { EREF_A, EREF_B };")
     P.lines.append("typedef int T;")
     sc.declare("T", "typedef")
     if u_kind == "typedef":
@@ -256,6 +271,8 @@ def build_program(u_kind, events, param=None, kr=False, nested=False, renames=No
         if r == "opened":
             opened += 1
             depth_left -= 1
+        if ev in NEUTRAL_EVENTS and ev not in ("open", "close"):
+            continue   # no probe: the token that follows a neutral event must be the next event's own first token
         P.probe(sc)
     while opened:
         sc.pop()
@@ -405,7 +422,7 @@ def run_shard(spec):
            "counters": {"programs": 0, "probes": 0, "with_triggers": 0, "gcc_validated": 0, "oracle_disagreements": 0, "kf": {}}}
     cnt = res["counters"]
     hs = set()
-    alphabet = [(e, n) for e in BLOCK_EVENTS for n in (NAMES if e not in ("open", "close") else ["-"])]
+    alphabet = [(e, n) for e in BLOCK_EVENTS for n in (NAMES if e not in NEUTRAL_EVENTS else ["-"])]
 
     def one(u_kind, events, param=None, kr=False, nested=False, pstyle=0):
         P, v = judge(u_kind, events, param, kr, nested, cnt, pstyle)
@@ -433,6 +450,14 @@ def run_shard(spec):
                         for ps in range(len(PSTYLES)):
                             for pname in NAMES:
                                 one(u_kind, list(seq), pname, False, False, ps)
+                    # neutral statements (tag-only enum reference, for/if without braces or else) directly before the
+                    # first block open / block close / for event: exposes look-ahead and brace-bookkeeping slips
+                    evs = [e for e, _ in seq]
+                    for anchor in ("open", "close", "for"):
+                        if anchor in evs:
+                            at = evs.index(anchor)
+                            for ne in ("etagref", "forif", "ifnoelse"):
+                                one(u_kind, list(seq[:at]) + [(ne, "-")] + list(seq[at:]))
                     P = one(u_kind, list(seq))
                     if P is not None:
                         res["nontrivial_distinct"] += 1 if L else 0
